@@ -199,7 +199,16 @@ fn one_spawn_x(ctx: &mut Ctx, kinds: [usize; 3], shared: bool, dir: &std::path::
     let sin = redirs[0].take().unwrap();
     let argv = vec![exe.clone().into_os_string(), OsString::from("x")];
     let config = PopenConfig { stdin: sin, stdout: sout, stderr: serr, ..Default::default() };
-    let m = run::monitored(|| Popen::create(&argv, config));
+    // half of the spawns whose stdin setting the builder accepts go through Exec::cmd(..).stdin(..).stdout(..).stderr(..).popen()
+    let via_exec = kinds[0] != 4 && closed.is_none() && (kinds[0] + kinds[1] * 2 + kinds[2]) % 2 == 1;
+    let m = if via_exec {
+        ctx.count("spawns_through_the_exec_builder", 1);
+        let PopenConfig { stdin, stdout, stderr, .. } = config;
+        let e = subprocess::Exec::cmd(&argv[0]).args(&argv[1..]);
+        run::monitored(move || e.stdin(stdin).stdout(stdout).stderr(stderr).popen())
+    } else {
+        run::monitored(|| Popen::create(&argv, config))
+    };
     let evs = m.events();
     let nforks = spawn::count_kind(&evs, k::FORK, false);
     let wit = |extra: J| J::obj().set("combination", J::s(&combo)).set("events", J::arr_s(&ilog::fmt_tail(&evs, 50))).set("detail", extra);
